@@ -1,5 +1,72 @@
 import RV.Json
+import RV.Drv.RolloutSM
+import RV.Oracle.Cluster
 namespace RV.Drv.Cluster
-open Lean RV
-def handle : Handler := fun op _ _ => .error s!"Cluster: op {op} not implemented"
+open Lean RV RV.Arith RV.RolloutSM RV.Drv.RolloutSM RV.Drv.Arith RV.Oracle.Cluster
+
+def wlxOfJson (j : Json) : R WlX := do
+  return { partition := ← iosOptOfJson j "partition", paused := ← fBool j "paused", controlled := ← fBool j "controlled",
+           updated := ← fInt j "updated" }
+
+def worldIfAny (j : Json) : R World := do
+  -- a vanished rollout is reported with an empty rollout record
+  match jopt (← jget j "w") "ro" with
+  | some _ => worldOfJson (← jget j "w")
+  | none => .error "no world"
+
+def emptyRo : Rollout := default
+
+def stateOfJson (j : Json) : R (Bool × World × Option WlX) := do
+  let ex ← fBool j "exists"
+  let wj ← jget j "w"
+  let w : World ← (if ex then worldOfJson wj else do
+    let wl ← (match jopt wj "wl" with | none => pure none | some x => do pure (some (← wlOfJson x)))
+    let br ← (match jopt wj "br" with | none => pure none | some x => do pure (some (← brOfJson x)))
+    pure { ro := emptyRo, wl := wl, br := br, net := ← RV.Drv.Traffic.netOfJson (← jget wj "net"), mem := RV.Traffic.Mem.empty })
+  let x ← (match jopt j "wlx" with | none => pure none | some v => do pure (some (← wlxOfJson v)))
+  return (ex, w, x)
+
+/-- C06: the final states agree on everything the user can observe -/
+def sameFinal (a b : Bool × World × Option WlX) : Bool :=
+  let (ea, wa, xa) := a
+  let (eb, wb, xb) := b
+  ea == eb && wa.br == wb.br && wa.net == wb.net && wa.wl == wb.wl && xa == xb &&
+  wa.ro.phase == wb.ro.phase && wa.ro.reason == wb.ro.reason && wa.ro.succeeded == wb.ro.succeeded &&
+  (wa.ro.sub.map fun s => (s.curIdx, s.state, s.canaryRev, s.stableRev)) == (wb.ro.sub.map fun s => (s.curIdx, s.state, s.canaryRev, s.stableRev))
+
+def handle : Handler := fun op inp _impl => do
+  match op with
+  | "snapshot" =>
+    let (ex, w, x) ← stateOfJson inp
+    let holds :=
+      [("C05.terminal_clean", terminalClean ex w x), ("C06.terminal_clean", terminalClean ex w x)] ++
+      (match x with
+       | some k => [("C01.cluster_exposure", !ex || exposureWithinStep w k), ("C06.cluster_exposure", !ex || exposureWithinStep w k),
+                    ("C04.cluster_no_void", !ex || noVoid w k), ("C06.cluster_no_void", !ex || noVoid w k)]
+       | none => [])
+    let rolling := ex && w.ro.phase == .progressing && w.ro.reason == .inRolling
+    let routed := match w.net.canaryIng with | some wt => decide (wt > 0) | none => false
+    let terminal := !ex || w.ro.phase == .healthy || w.ro.phase == .disabled
+    return { holds := holds, tags := [s!"snap:{phaseStr w.ro.phase}/{reasonStr w.ro.reason}", if ex then "exists" else "gone"] ++
+      (if rolling && (x.map (·.controlled)).getD false then ["exposure-judged"] else []) ++
+      (if routed then ["canary-route-live"] else []) ++ (if w.net.stableSel.isSome then ["stable-pinned"] else []) ++
+      (if terminal then ["terminal-judged"] else []) ++ (if !rolling && !routed && !terminal then ["trivial"] else []) }
+  | "final" =>
+    let base ← stateOfJson (← jget inp "baseline")
+    let run ← stateOfJson (← jget inp "run")
+    let done ← fBool inp "done"
+    let same ← fBool inp "sameOutcome"
+    let recs ← fNat inp "reconciles"
+    let steps ← fNat inp "steps"
+    let (ex, w, x) := run
+    let holds :=
+      [("C07.terminates", done), ("C06.terminates", done), ("C05.final_clean", terminalClean ex w x),
+       ("C06.final_clean", terminalClean ex w x),
+       -- a generous linear budget: every step needs a bounded number of rounds of (rollout, BatchRelease) reconciles
+       ("C07.reconcile_budget", decide (recs ≤ 60 * (steps + 4)))] ++
+      (if same then [("C06.same_final_state", sameFinal base run)] else [])
+    return { holds := holds, tags := [if same then "run:disturbed-or-baseline" else "run:user-event", if done then "done" else "notdone",
+      s!"plan:{((← fStr inp "plan").splitOn "@").head!}"] }
+  | _ => .error s!"cluster: unknown op {op}"
+
 end RV.Drv.Cluster
